@@ -26,6 +26,8 @@ def make_config(rng, profile, tier):
     cfg['N'] = rng.choice([1, 2, 3, 5, 7, 12, 20, 40]) if rng.random() < 0.6 else rng.randrange(1, 41)
     cfg['threads'] = rng.choice([1, 2, 3, 0])
     cfg['panel'] = (profile != 'est') and rng.random() < 0.15
+    # row labels of the tables handed to the library (buggify): positions, a permutation of them, with gaps, shifted
+    cfg['index_kind'] = rng.choice(['range', 'range', 'keep', 'gaps', 'offset'])
     if cfg['panel']:
         cfg['weight'] = None
         cfg['N'] = max(cfg['N'], 3)
@@ -152,7 +154,16 @@ class Session:
         if permseed is not None:
             idx = list(range(len(t)))
             random.Random(permseed).shuffle(idx)
-            t = t.iloc[idx].reset_index(drop=True)
+            t = t.iloc[idx]
+            if self.cfg.get('index_kind') != 'keep':
+                t = t.reset_index(drop=True)
+            else:
+                self.ctx.probe('row labels are a permutation of the positions')
+        ik = self.cfg.get('index_kind')
+        if ik == 'gaps':
+            t.index = [3 * i + (i % 2) for i in range(len(t))]
+        elif ik == 'offset':
+            t.index = [i + 1000 for i in range(len(t))]
         ll, w, betas = specs.build_formulas(cfg)
         if self.cfg.get('panel'):
             import biogeme.expressions as ex
@@ -170,6 +181,13 @@ class Session:
         if self.cfg.get('panel'):
             d.panel('grp')
             self.ctx.probe('panel data (sample size = individuals)')
+            if permseed is not None and permseed % 2:
+                # rows re-ordered after the data were declared panel (a second wave appended, a shuffle): the object
+                # sorts them again
+                idx2 = list(range(len(d.data)))
+                random.Random(permseed + 1).shuffle(idx2)
+                d.data = d.data.iloc[idx2]
+                self.ctx.probe('panel rows re-ordered after panel()')
         b = bio.BIOGEME(d, forms if (dictform or w is not None) else ll, parameters=self._params(threads, save))
         b.modelName = 'm'
         rec = {'b': b, 'T': threads, 'perm': permseed, 'table': t, 'betas': betas, 'cfg': cfg}
@@ -336,8 +354,6 @@ class Session:
             # cross-sectional comparisons: replaced by a plain evaluation on panel data
             kind, a = 'LLD', [a[0] if kind != 'PARTS' else 0, (a[1] if len(a) > 1 else a[0]) % 5, False, True, True]
         if kind == 'MAKE':
-            if self.cfg.get('panel'):
-                a = [a[0], a[1], False]     # individuals must stay contiguous: no row permutation
             rec = self.make_object(a[0], a[1] if a[2] else None)
             ctx.log(kind, a[0], a[1] if a[2] else None)
         elif kind == 'FRESH':
